@@ -36,7 +36,7 @@ SPEC['C04'] = ('Bottom-up build runs only affected tasks, once, in dependency or
   ('C04_cutoff', 'Local', 'schedule_requirer_cutoff', 'early cut-off: a requirer whose checker accepts the new output is not scheduled'),
   ('C04_affected_scheduled', 'Local', 'schedule_requirer_schedules', 'a requirer whose checker rejects the new output is scheduled'),
 ], 'The at-most-once clause is PARTIAL (decided by correspondence + oracle).')
-SPEC['C05'] = ('Hidden dependencies are always detected', ['Local', 'History', 'ExecInv', 'ExecSession', 'Cert', 'Stable', 'NoBug4', 'Sim', 'NoAbort', 'Final', 'Findings'], [
+SPEC['C05'] = ('Hidden dependencies are always detected', ['Local', 'History', 'ExecInv', 'ExecSession', 'Cert', 'Stable', 'NoBug4', 'Sim', 'NoAbort', 'Final', 'NoAbortAll', 'Findings'], [
   ('C05_read_detected', 'Local', 'sess_read_hidden', 'a read of a resource whose recorded writer is not a transitive dependency of the reader aborts with a hidden dependency; nothing is modified'),
   ('C05_read_abort_only_then', 'Local', 'sess_read_hidden_only', 'and a read aborts with a hidden dependency only in that situation'),
   ('C05_write_detected', 'Local', 'validate_write_hidden', 'a write to a resource with a recorded reader that does not transitively require the writer is diagnosed'),
@@ -208,6 +208,13 @@ RAW['C01'] += [
 ]
 
 RAW['C05'] = [
+  ('C05_hence_static_class_any_history',
+   'the "Hence" clause for ALL histories (top-down, bottom-up and mixed sessions): in every reachable store of the static class every task with a recorded read of a resource directly requires the task recorded as its writer, so the writer is a transitive dependency of the reader (NoAbortAll.v: Q is an invariant of every history)',
+   TOTAL_BINDERS + """  forall fuel h,
+  let w := snd (run_history RC OC P always fuel init_world h) in
+  forall rd g r dp dp', row w rd (rn r) = Some dp -> is_read (Some dp) = true -> row w g (rn r) = Some dp' -> is_write (Some dp') = true ->
+    In (tn g) (kidsT w rd) /\\ contains_transitive_task_dependency w rd g = Some true""",
+   'intros gen wck ord RC OC P sf always HS HWF HWO fuel h. exact (static_class_readers_require_writer_any_history gen wck ord RC OC P sf HS HWF HWO always fuel h).'),
   ('C05_hence_static_class',
    'the "Hence" clause, for well-formed programs: in the store after ANY history of top-down sessions (also after aborted builds, also for tasks still without output) every task with a recorded read of a resource directly requires the task recorded as its writer, so the writer is a transitive dependency of every reader. Outside the static class the clause is refuted (recorded finding O6, C05_final_store_refuted)',
    TOTAL_BINDERS + """  forall fuel h, hist_below ord fuel h ->
